@@ -849,7 +849,7 @@ def grad_einsum(argnum, ans, operands_, kwargs):
                 new_operands = (g,) + rest_of_ops
 
             new_subscripts = new_input_subs + "->" + subs_wrt
-            return unbroadcast(anp.einsum(new_subscripts, *new_operands), result_meta)
+            return restretch(unbroadcast(anp.einsum(new_subscripts, *new_operands), result_meta), result_meta)
         else:  # using (op0, sublist0, op1, sublist1, ..., sublistout) convention
             if len(operands) % 2 == 0:
                 raise NotImplementedError("Need sublistout argument")
@@ -857,7 +857,9 @@ def grad_einsum(argnum, ans, operands_, kwargs):
             rest_of_ops = (
                 [operands[-1]] + operands[:argnum] + operands[(argnum + 2) : -1] + [operands[argnum + 1]]
             )
-            return unbroadcast_einsum(anp.einsum(g, *rest_of_ops), result_meta, operands[argnum + 1])
+            return restretch(
+                unbroadcast_einsum(anp.einsum(g, *rest_of_ops), result_meta, operands[argnum + 1]), result_meta
+            )
 
     return vjp
 
@@ -911,6 +913,12 @@ def unbroadcast_einsum(x, target_meta, subscript):
         return unbroadcast(x, target_meta, -1)
     else:
         return unbroadcast(x, target_meta, subscript.index(Ellipsis))
+
+
+def restretch(x, target_meta):
+    # einsum stretches length-1 named axes: an axis that only another operand stretched comes back with length 1
+    target_shape = target_meta[0]
+    return x if anp.shape(x) == target_shape else anp.broadcast_to(x, target_shape)
 
 
 def balanced_eq(x, z, y):
